@@ -25,10 +25,14 @@ func (nopLogger) Sync() error                      { return nil }
 func (nopLogger) Debug(format string, args ...any) {}
 
 // recRunner records the command texts that reach the shell.
-type recRunner struct{ cmds []string }
+type recRunner struct {
+	cmds []string
+	env  []string // the environment handed over with the last command
+}
 
 func (r *recRunner) Run(cmd string, stream iostream.IOStream, task string, env []string) (shell.Result, error) {
 	r.cmds = append(r.cmds, cmd)
+	r.env = append([]string{}, env...)
 	return shell.Result{Cmd: cmd}, nil
 }
 
@@ -104,7 +108,9 @@ func Vars() {
 	size := sym.ParamInt("size", 2)
 	root, cleanup := projectDir()
 	defer cleanup()
-	early := valueHole("early", size)
+	// the value may be empty: an empty variable is still a variable (a seeded change that left
+	// empty variables out of the environment let an ambient namesake show through, DESIGN.md 9.5)
+	early := valueHole("early", sym.Choice("earlylen", size+1))
 	late := valueHole("late", 1)
 	ja, jb := "out", "bin"
 	lit1, lit2 := literalHole("lit1", 1), literalHole("lit2", 1)
@@ -137,6 +143,18 @@ func Vars() {
 	if _, err := sf.Run(iostream.Null(), r, true, "t"); err != nil || len(r.cmds) != 1 {
 		sym.Violation("C13/command-did-not-run", "")
 		return
+	}
+	// every variable is handed to the runner as NAME=value (what the runner does with an ambient
+	// namesake is EnvPrecedence's subject)
+	for _, kv := range [][2]string{{"EARLY", early}, {"LATE", late}, {"J", wantJoin}} {
+		n := 0
+		for _, e := range r.env {
+			if strings.HasPrefix(e, kv[0]+"=") {
+				n++
+				sym.Assert(e[len(kv[0])+1:] == kv[1], "C13/variable-exported-with-another-value")
+			}
+		}
+		sym.Assert(n == 1, "C13/variable-not-in-the-command-environment")
 	}
 	prefix := "echo " + lit1 + early + lit2 + " " + wantJoin + " "
 	got := r.cmds[0]
